@@ -27,6 +27,7 @@ func init() {
 			ruleC02R7(r)
 			ruleC02R8(r)
 			ruleResumeRestoresConnected(r, "R9", "Upstream")
+			ruleNoSwallowedErrors(r, "R10", 30, false, "/iscp")
 			ruleC01R8(r)
 		},
 	})
@@ -216,8 +217,11 @@ func ruleC02R3(r *Run) {
 						case *ssa.BinOp:
 							if y.Referrers() != nil {
 								for _, r2 := range *y.Referrers() {
-									if _, isIf := r2.(*ssa.If); isIf {
-										feeds = true
+									if ifs, isIf := r2.(*ssa.If); isIf {
+										// polarity: the marker is sent only on the edge where Err() is nil
+										if ne := nilEdge(ifs, ssa.Value(c)); ne != nil && edgeDominates(ifs.Block(), ne, sel.Block()) {
+											feeds = true
+										}
 									}
 								}
 							}
